@@ -47,16 +47,20 @@ FULL_ALPHABET = (
     [('bad', 'reaction'), ('bad', 'kind'), ('bad', 'valid_then_invalid'), ('bad', 'invalid_then_valid')] +
     [('seterrcall', 'empty', 'cb_one'), ('seterrcall', 'empty', 'cb_two'), ('seterrcall', 'nokind', 'cb_two')] +
     [('trigger', 'empty'), ('trigger', 'obsdup')] +
-    [('enter', i) for i in range(5)] + [('exit',), ('exit_exc',)])
+    [('enter', i) for i in range(5)] + [('exit',), ('exit_exc',), ('exit_base',)])
 ENTER_ARGS = [{'empty': 'raise'}, {'obsdup': 'ignore'}, {'all': 'print'}, {'empty': 'call', 'sampdup': 'warn'},
               {'nokind': 'raise'}]
 REDUCED = ([('seterr', 'empty', r) for r in ('ignore', 'raise', 'call')] + [('seterr_all', 'warn')] +
            [('seterrcall', 'empty', 'cb_one'), ('seterrcall', 'empty', 'cb_two'), ('trigger', 'empty')] +
-           [('enter', 0), ('enter', 2), ('enter', 3), ('exit',), ('exit_exc',)])
+           [('enter', 0), ('enter', 2), ('enter', 3), ('exit',), ('exit_exc',), ('exit_base',)])
 
 
 class Boom(RuntimeError):
     pass
+
+
+class BaseBoom(BaseException):
+    """leaving a block the way KeyboardInterrupt / SystemExit / GeneratorExit do"""
 
 
 # ----------------------------------------------------------------------------- model
@@ -188,7 +192,7 @@ def step(op, w, m):
     elif kind == 'trigger':
         out += probe(w, m, kinds=(op[1],))
         m.triggered.add(op[1])
-    elif kind in ('exit', 'exit_exc'):
+    elif kind in ('exit', 'exit_exc', 'exit_base'):
         if not w.managers:
             raise Skip()
         cm = w.managers.pop()
@@ -196,12 +200,13 @@ def step(op, w, m):
         if kind == 'exit':
             r = cm.__exit__(None, None, None)
         else:
-            e = Boom('leaving the block by exception')
+            cls = Boom if kind == 'exit_exc' else BaseBoom
+            e = cls('leaving the block by exception')
             try:
-                r = cm.__exit__(Boom, e, None)
+                r = cm.__exit__(cls, e, None)
                 if r:
                     out.append(('errstate:exception-swallowed', 'errstate swallowed the exception raised in its block'))
-            except Boom:
+            except cls:
                 pass
     else:
         raise KeyError(op)
@@ -210,7 +215,8 @@ def step(op, w, m):
     if got != m.cur:
         diffk = sorted(k for k in got if got[k] != m.cur.get(k))
         what = {'bad': 'refused-update-changed-profile', 'exit': 'not-restored-after-normal-exit',
-                'exit_exc': 'not-restored-after-exception', 'enter': 'override-not-in-force',
+                'exit_exc': 'not-restored-after-exception', 'exit_base': 'not-restored-after-exception',
+                'enter': 'override-not-in-force',
                 'seterrcall': 'seterrcall-changed-profile'}.get(kind, 'seterr-not-applied')
         out.append(('profile:' + what, 'after %r geterr() differs from the scoped-stack model in %r: got %r, '
                     'model %r' % (op, diffk, {k: got[k] for k in diffk}, {k: m.cur[k] for k in diffk})))
@@ -388,6 +394,10 @@ def trigger(kind, site):
             return lambda: Table(D, ['a', 'b'], ['x', 'x'])
         if kind == 'obsmdsize':
             return lambda: Table(D, ['a', 'b'], ['x', 'y'], [{'k': 1}], None)
+        if kind == 'obsmdsize-empty':
+            return lambda: Table(D, ['a', 'b'], ['x', 'y'], [], None)
+        if kind == 'sampmdsize-empty':
+            return lambda: Table(D, ['a', 'b'], ['x', 'y'], None, ())
         if kind == 'sampmdsize':
             return lambda: Table(D, ['a', 'b'], ['x', 'y'], None, [{'k': 1}, {'k': 2}, {'k': 3}])
     base = (lambda: Table(D.copy(), ['a', 'b'], ['x', 'y']))
@@ -440,10 +450,12 @@ def reactions(chunk, acc):
                             err.SAMPMDSIZE]))
     for kind, reaction, site, trig in chunk:
         reset_world()
-        thunk = trigger(kind, site) if trig else nontrigger(site)
+        variant = kind
+        kind = kind.split('-')[0]
+        thunk = trigger(variant, site) if trig else nontrigger(site)
         if thunk is None:
             continue
-        case = {'kind': kind, 'reaction': reaction, 'site': site, 'triggering': trig}
+        case = {'kind': variant, 'reaction': reaction, 'site': site, 'triggering': trig}
         err.seterrcall(kind, cb_one)
         err.seterr(**{kind: reaction})
         del CALLS[:]
@@ -496,11 +508,13 @@ def run(run):
     if not fix:
         run.cap('reduced alphabet did not reach a fixpoint within depth 40')
     cases = [(k, r, s, trig) for k in KINDS for r in REACTIONS for s in SITES for trig in (True, False)]
+    cases += [(k, r, 'constructor', True) for k in ('obsmdsize-empty', 'sampmdsize-empty') for r in REACTIONS]
     run.pmap(reactions, cases, nchunks=16)
     run.extra['alphabet'] = [list(o) for o in FULL_ALPHABET]
     run.extra['enter_args'] = ENTER_ARGS
     run.extra['max_nesting'] = MAXNEST
-    vacuity(run, ['op:' + o for o in ('seterr', 'seterr_all', 'bad', 'seterrcall', 'trigger', 'enter', 'exit', 'exit_exc')] +
+    vacuity(run, ['op:' + o for o in ('seterr', 'seterr_all', 'bad', 'seterrcall', 'trigger', 'enter', 'exit', 'exit_exc',
+                                 'exit_base')] +
             ['clause:reaction:' + r for r in REACTIONS] + ['site:' + s for s in SITES])
     reset_world()
     run.assumptions += ['errstate context managers are driven by hand (__enter__/__exit__), leaving by exception is '
